@@ -29,7 +29,7 @@ def wsdl_specs(draw):
     spec = {"tns": tns, "xsd_ns": xsd_ns, "inline": draw(st.booleans()), "style": style,
             "location": draw(st.sampled_from(["http://localhost:8080/svc", "https://example.com/soap/endpoint?x=1", "http://h/a%20b"])),
             "binding": draw(st.sampled_from(["CalcSoap", "OrdersBinding", "svc_binding"])), "service": draw(st.sampled_from(["Calc", "OrderService"])),
-            "elements": {}, "types": {}, "ops": []}
+            "elements": {}, "types": {}, "ops": [], "split": draw(st.integers(0, 2)) == 0}
 
     def children():
         names = draw(st.lists(st.sampled_from(FIELDS), min_size=1, max_size=3, unique=True))
@@ -41,7 +41,7 @@ def wsdl_specs(draw):
 
     names = draw(st.lists(st.sampled_from(OPS), min_size=1, max_size=4, unique=True))
     for i, op in enumerate(names):
-        o = {"name": op, "action": draw(st.sampled_from([f"{tns.rstrip('/')}/{op}", f"urn:action:{op}", op])), "header": None, "fault": None}
+        o = {"name": op, "action": draw(st.sampled_from([f"{tns.rstrip('/')}/{op}", f"urn:action:{op}", op])), "header": None, "header2": None, "fault": None}
         for side, suffix in (("input", ""), ("output", "Response")):
             if style == "document":
                 o[side] = [{"name": draw(st.sampled_from(["parameters", "body", "payload"])), "element": element(f"{op}{suffix}")}]
@@ -60,6 +60,8 @@ def wsdl_specs(draw):
             # in the second case its name extends the name of a body part
             same = draw(st.booleans())
             o["header"] = {"name": (o["input"][0]["name"] + "Header") if same else "hdr", "element": element(f"{op}Header"), "same_message": same}
+            if not same and draw(st.booleans()):
+                o["header2"] = {"name": "hdr2", "element": element(f"{op}Header2")}
         # soap:operation may override the binding style and may leave soapAction out
         o["style"] = draw(st.sampled_from([None, None, "document", "rpc"])) if i > 0 or draw(st.booleans()) else None
         if o["style"] == style:
@@ -95,12 +97,33 @@ def render_xsd(spec):
     return "\n".join(out)
 
 
+def split_elements(spec):
+    """(elements of the imported document, elements of the main document) when the definitions are split over two WSDL files."""
+    main = {n: k for n, k in spec["elements"].items() if n.endswith(("Header", "Header2", "Fault"))}
+    if not spec.get("split") or not spec["inline"] or not main or len(main) == len(spec["elements"]):
+        return None
+    return {n: k for n, k in spec["elements"].items() if n not in main}, main
+
+
+def render_part_wsdl(spec):
+    """The imported document: the same target namespace, an inline schema with the body elements and the named types."""
+    part, _ = split_elements(spec)
+    sub = dict(spec, elements=part)
+    return ('<?xml version="1.0" encoding="UTF-8"?>\n'
+            f'<wsdl:definitions xmlns:wsdl="http://schemas.xmlsoap.org/wsdl/" xmlns:xs="{XS}" targetNamespace="{spec["tns"]}" name="{spec["service"]}Part">'
+            f"<wsdl:types>{render_xsd(sub)}</wsdl:types></wsdl:definitions>")
+
+
 def render_wsdl(spec):
     tns = spec["tns"]
     out = ['<?xml version="1.0" encoding="UTF-8"?>',
            f'<wsdl:definitions xmlns:wsdl="http://schemas.xmlsoap.org/wsdl/" xmlns:soap="http://schemas.xmlsoap.org/wsdl/soap/" xmlns:xs="{XS}" '
            f'xmlns:tns="{tns}" xmlns:x="{spec["xsd_ns"]}" targetNamespace="{tns}" name="{spec["service"]}">', "<wsdl:types>"]
-    if spec["inline"]:
+    parts = split_elements(spec)
+    if parts:
+        out.insert(2, f'<wsdl:import namespace="{tns}" location="part.wsdl"/>')
+        out.append(render_xsd(dict(spec, elements=parts[1], types={})))
+    elif spec["inline"]:
         out.append(render_xsd(spec))
     else:
         out.append(f'<xs:schema><xs:import namespace="{spec["xsd_ns"]}" schemaLocation="types.xsd"/></xs:schema>')
@@ -116,6 +139,8 @@ def render_wsdl(spec):
         out.append(f'<wsdl:message name="{o["name"]}Response">' + "".join(part(p) for p in o["output"]) + "</wsdl:message>")
         if o["header"] and not same:
             out.append(f'<wsdl:message name="{o["name"]}Hdr">{part(o["header"])}</wsdl:message>')
+        if o.get("header2"):
+            out.append(f'<wsdl:message name="{o["name"]}Hdr2">{part(o["header2"])}</wsdl:message>')
         if o["fault"]:
             out.append(f'<wsdl:message name="{o["name"]}Flt">{part(o["fault"])}</wsdl:message>')
     out.append(f'<wsdl:portType name="{spec["service"]}Port">')
@@ -132,6 +157,8 @@ def render_wsdl(spec):
         body_out = f'<soap:body use="literal"{ns_attr}/>'
         body_in = f'<soap:body use="literal"{ns_attr}' + (f' parts="{" ".join(p["name"] for p in o["input"])}"' if same else "") + "/>"
         hdr = f'<soap:header message="tns:{o["name"]}{"Request" if same else "Hdr"}" part="{o["header"]["name"]}" use="literal"/>' if o["header"] else ""
+        if o.get("header2"):
+            hdr += f'<soap:header message="tns:{o["name"]}Hdr2" part="hdr2" use="literal"/>'
         soap_op = "<soap:operation" + (f' soapAction="{o["action"]}"' if o["action"] is not None else "") + (f' style="{o["style"]}"' if o.get("style") else "") + "/>"
         out.append(f'<wsdl:operation name="{o["name"]}">{soap_op}'
                    f'<wsdl:input>{hdr}{body_in}</wsdl:input><wsdl:output>{body_out}</wsdl:output>' +
@@ -165,7 +192,8 @@ def envelope(draw, spec, op, side, fault=False):
     """The SOAP 1.1 envelope the WSDL prescribes for one message of an operation, with generated values."""
     head = ""
     if side == "input" and op["header"]:
-        head = f'<soapenv:Header>{_element(draw, spec, op["header"]["element"])}</soapenv:Header>'
+        second = _element(draw, spec, op["header2"]["element"]) if op.get("header2") else ""
+        head = f'<soapenv:Header>{_element(draw, spec, op["header"]["element"])}{second}</soapenv:Header>'
     if fault:
         detail = f'<detail>{_element(draw, spec, op["fault"]["element"])}</detail>' if op["fault"] else ""
         body = f'<soapenv:Fault><faultcode>soapenv:Server</faultcode><faultstring>{draw(st.sampled_from(["boom", "Bad request"]))}</faultstring>{detail}</soapenv:Fault>'
